@@ -24,6 +24,10 @@ import traceback
 VERIF = os.path.dirname(os.path.dirname(os.path.abspath(__file__)))
 EVIDENCE_DIR = os.path.join(VERIF, "evidence")
 REPLAY_DIR = os.path.join(VERIF, "replays")
+if os.path.realpath(os.environ.get("COOLSIM_REPO", "/repo")) != "/repo":
+    # a self-test against a scratch worktree holding a seeded change: its replay files are not
+    # findings about /repo and stay out of /verif
+    REPLAY_DIR = os.path.join(tempfile.gettempdir(), "coolsim-selftest-replays")
 KNOWN = os.path.join(VERIF, "known_findings.json")
 
 
